@@ -3,9 +3,9 @@ import itertools
 import json
 
 TOKSETS = [
-    {"A": "Server", "B": "optional", "C": "Client", "T": "Tools"},
-    {"A": "a", "B": "B9", "C": "Z", "T": "0x"},
-    {"A": "Workstation", "B": "HighAvailability", "C": "Server", "T": "ServerSAP"},
+    {"A": "Server", "B": "optional", "C": "Client", "T": "Tools", "o": "Optional2", "h": "HA"},
+    {"A": "a", "B": "B9", "C": "Z", "T": "0x", "o": "o", "h": "9"},
+    {"A": "Workstation", "B": "HighAvailability", "C": "Server", "T": "ServerSAP", "o": "optional", "h": "SAPHANA"},
 ]
 ARCHSETS = [
     {"x": "x86_64", "y": "ppc64le", "z": "s390x"},
